@@ -190,7 +190,7 @@ class psinc(sym.Function):
             if val.is_integer and val.is_even:
                 return S.One
             if val.is_integer and val.is_odd:
-                return -S.One
+                return (-S.One)**(M - 1)
 
             x = sym.pi * val
             return sym.sin(M * x) / (M * sym.sin(x))
